@@ -455,10 +455,11 @@ class NameConverter(ast.NodeTransformer):
             )
 
         def _make_lookup_call(key, arg):
+            # (not the bare name `type`, which the method may shadow)
             name = (
                 "__SUBTLER_TYPE"
                 if self.analysis.lookup_for(key) is subtler_type
-                else "type"
+                else "__PLAIN_TYPE"
             )
             value = ast.NamedExpr(
                 target=ast.Name(id=f"{tmp}{key}", ctx=ast.Store()),
@@ -700,6 +701,7 @@ def recode(fn, ovld, recurse_sym, call_next_sym, newname, slot=None):
     new_fn.__annotations__ = fn.__annotations__
     new_fn = _mark_code(rename_function(new_fn, newname), slot)
     new_fn.__globals__["__SUBTLER_TYPE"] = subtler_type
+    new_fn.__globals__["__PLAIN_TYPE"] = type
     new_fn.__globals__[ovld_mangled] = ovld.dispatch
     new_fn.__globals__[map_mangled] = ovld.map
     new_fn.__globals__[code_mangled] = new_fn.__code__
